@@ -101,7 +101,6 @@ def run_job(job, bdir, backends=("cadical",), timeout=300, trace=False, incdirs=
         job.cmds.append(" ".join(cmd))
         rc, out, err, secs = run(cmd, timeout)
         job.backend = backend
-        job.raw = out
         if rc == -9:
             job.status, job.reason = "undecided", "timeout after %ds on %s" % (timeout, backend)
             continue
